@@ -27,11 +27,22 @@ Cfg = namedtuple("Cfg", "tp count tph clear")   # tph: None or frozenset of str
 
 
 def hx(s):
-    return s.encode("latin-1").hex() if s else "-"
+    if not s:
+        return "-"
+    try:
+        return s.encode("latin-1").hex()
+    except UnicodeEncodeError:
+        # only an OBSERVED value can be outside latin-1 (itself a violation: WSGI strings are latin-1
+        # decoded bytes); keep it reportable: "!" + utf-8 hex
+        return "!" + s.encode("utf-8").hex()
 
 
 def unhx(h):
-    return "" if h == "-" else bytes.fromhex(h).decode("latin-1")
+    if h == "-":
+        return ""
+    if h.startswith("!"):
+        return bytes.fromhex(h[1:]).decode("utf-8")
+    return bytes.fromhex(h).decode("latin-1")
 
 
 def cfg_words(c):
@@ -600,7 +611,31 @@ FWD_DEGEN_EL = [
     "x", "=", "for=a;x", "secret=\"", "ext=\" \"", "for=1.2.3.4:", 'proto="ht\\tps"', 'proto="ftp"', "host=:",
     'for="\\"', "for=\\", 'for="a\\\x7f"', "host=h;host=", 'host=h;host=""', "proto=http;proto=", "for=_a;for=\"\"",
 ]
-FUZZ_ALPHA = '",;=:[]\\ .a1A\t\x85"fh'
+FUZZ_ALPHA = '",;=:[]\\ .a1A\t\x85"fh\xb5\xdf\xff\xa0\xb2'
+
+
+# code points < 256 where a text transformation leaves ASCII behaviour: casefold (b5 df), upper (b5 df ff),
+# lower of the upper-case latin-1 letters (c0-de, not d7), isalpha/islower (aa ba), strip / isspace
+# (85 a0 1c-1f), isdigit / int() (b2 b3 b9, bc-be numeric), soft hyphen, DEL, the first non-ASCII
+SPECIAL_BYTES = "\xb5\xdf\xff\xaa\xba\x85\xa0\x1c\x1d\x1e\x1f\xb2\xb3\xb9\xbc\xbd\xbe\xc0\xd7\xde\xf7\xdc\xe9\x7f\x80\xad"
+
+
+def sprinkle(rng, v, k=None):
+    """insert k (1..2) special code points into v at the start / somewhere inside / at the end"""
+    for _ in range(k or rng.choice([1, 1, 2])):
+        b = rng.choice(SPECIAL_BYTES)
+        where = rng.choice(["start", "mid", "end", "inside-quotes"])
+        if where == "start":
+            v = b + v
+        elif where == "end":
+            v = v + b
+        elif where == "inside-quotes" and '"' in v:
+            i = v.index('"') + 1
+            v = v[:i] + b + v[i:]
+        else:
+            i = rng.randint(0, len(v))
+            v = v[:i] + b + v[i:]
+    return v
 
 
 def _pad(rng, s):
@@ -687,6 +722,10 @@ def gen_headers(rng, env, p_degen, which=None):
             v = rng.choice(BY_VALS)
         else:
             v = gen_forwarded(rng, p_degen)
+        # the latin-1 code points on which str.lower / casefold / strip / isdigit ... differ from their
+        # ASCII meaning, anywhere in any value (shared by the C15 and C16 generators)
+        if rng.random() < 0.12:
+            v = sprinkle(rng, v)
         env[KIND_KEY[kind]] = v
         present.append(kind)
     return present
@@ -1873,3 +1912,481 @@ def gen_wf_case(rng):
     if rng.random() < 0.8:
         e["HTTP_X_FORWARDED_PORT"] = _wfv(rng, rng.choice(["80", "443", "8080", "0", "65535"]), 0)
     return e, Cfg(PEER, rng.randint(1, 5), tph, rng.random() < 0.7)
+
+
+
+# (5) latin-1: the code points on which Python's text transformations (lower / casefold / upper / strip /
+#     isdigit ...) leave their ASCII meaning, systematically in every field, quoted and unquoted, at the
+#     start / in the middle / at the end, in the trusted hop and in a hop left of it.
+
+def _place(v, b, pos):
+    if pos == "start":
+        return b + v
+    if pos == "end":
+        return v + b
+    i = len(v) // 2
+    return v[:i] + b + v[i:]
+
+
+def latin1_cases(tier):
+    """-> list of (env, cfg)"""
+    out = []
+    fw = frozenset(["forwarded"])
+    specials = SPECIAL_BYTES if tier == "quick" else "".join(chr(i) for i in list(range(1, 32)) + list(range(127, 256)) if chr(i) not in ",;")
+    for b in specials:
+        for pos in ("start", "mid", "end"):
+            for q in (False, True):
+                def val(v):
+                    v = _place(v, b, pos)
+                    return '"%s"' % v if q else v
+                fwd = [
+                    "for=%s;host=h.example;proto=https" % val("Client.Example"),
+                    "for=192.0.2.7;host=%s;proto=https" % val("Shop.Example"),
+                    "for=192.0.2.7;host=%s" % val("Shop.Example:8443"),
+                    "for=192.0.2.7;proto=%s" % val("https"),
+                    "for=192.0.2.7;by=%s" % val("_Proxy"),
+                    "for=192.0.2.7;ext=%s" % val("Value"),
+                    "%s=192.0.2.7;host=h.example" % _place("FOR", b, pos),
+                    "for=%s;host=%s, for=192.0.2.9" % (val("Left.Example"), val("Left.Host")),
+                ]
+                for i, v in enumerate(fwd):
+                    e = _benv()
+                    e["HTTP_FORWARDED"] = v
+                    out.append((e, Cfg(PEER, 2 if i == 7 and pos == "mid" else 1, fw, True)))
+                xs = [
+                    ("x-forwarded-for", val("Client.Example")), ("x-forwarded-for", "10.0.0.1, " + val("192.0.2.7:80")),
+                    ("x-forwarded-for", val("2001:DB8::7")),
+                    ("x-forwarded-host", val("Shop.Example")), ("x-forwarded-host", val("Shop.Example:8443") + ", inner.example"),
+                    ("x-forwarded-proto", val("https")), ("x-forwarded-port", val("8443")), ("x-forwarded-by", val("_Proxy")),
+                ]
+                for i, (kind, v) in enumerate(xs):
+                    e = _benv()
+                    e[KIND_KEY[kind]] = v
+                    tph = {kind}
+                    if kind in ("x-forwarded-proto", "x-forwarded-port"):
+                        e["HTTP_X_FORWARDED_HOST"] = "h.example"
+                        tph.add("x-forwarded-host")
+                    out.append((e, Cfg(PEER, 2 if i == 4 else 1, frozenset(tph), pos != "end")))
+    # every code point once, unquoted and quoted, in a for= identifier and in a host (the case mapping,
+    # the quoted-string alphabet and the strip set over the whole range)
+    for i in range(1, 256):
+        c = chr(i)
+        if c in ',;"\\':
+            continue
+        for v in ("for=_%sX;host=H%s.Example" % (c, c), 'for="_%sX";host="H%s.Example:81"' % (c, c), 'for="\\%s";proto=http' % c):
+            e = _benv()
+            e["HTTP_FORWARDED"] = v
+            out.append((e, Cfg(PEER, 1, fw, True)))
+        e = _benv()
+        e["HTTP_X_FORWARDED_FOR"] = "%s10.0.0.1%s" % (c, c)
+        e["HTTP_X_FORWARDED_HOST"] = "%sH.Example%s" % (c, c)
+        out.append((e, Cfg(PEER, 1, frozenset(["x-forwarded-for", "x-forwarded-host"]), True)))
+    return out
+
+
+def latin1_prim_tables(model_runner, fs_runner):
+    """K-lower: the case mapping, the strip set and the quoted-string reading used by the model and by the
+    specification, on ALL 256 latin-1 code points, against CPython / waitress.utilities.undquote.
+    -> (n, [(what, input, expected, got)])"""
+    from waitress.utilities import undquote
+    all256 = "".join(chr(i) for i in range(256))
+    strs = [chr(i) for i in range(256)] + ["A" + chr(i) + "Z" for i in range(256)] + [chr(i) * 2 for i in range(256)]
+    strs += [all256, all256[::-1], all256.upper() if all256.upper().isascii() else all256]
+    strs = [s for s in strs if all(ord(ch) < 256 for ch in s)]
+    q = []
+    exp = []
+    for s in strs:
+        lo = s.lower()
+        q.append(("fs", "lower " + hx(s)))
+        exp.append(hx(lo))
+        q.append(("fs", "strip " + hx(s)))
+        exp.append(hx(s.strip()))
+        q.append(("m", "strip " + hx(s)))
+        exp.append(hx(s.strip()))
+    for i in range(256):
+        c = chr(i)
+        for s in (c, '"' + c + '"', '"\\' + c + '"', '"a' + c, c + 'a"', " " + c + "a" + c + " "):
+            try:
+                w = undquote(s)
+                e_fs, e_m = "ok " + hx(w), "ok " + hx(w)
+            except ValueError:
+                e_fs, e_m = "bad", "exn ValueError"
+            q.append(("fs", "fieldvalue " + hx(s)))
+            exp.append(e_fs)
+            q.append(("m", "undq " + hx(s)))
+            exp.append(e_m)
+            q.append(("fs", "strip " + hx(s)))
+            exp.append(hx(s.strip()))
+    got_fs = iter(fs_runner.query([l for w, l in q if w == "fs"]))
+    got_m = iter(model_runner.query([l for w, l in q if w == "m"]))
+    bad = []
+    for (w, l), e in zip(q, exp):
+        g = next(got_fs) if w == "fs" else next(got_m)
+        if g != e:
+            bad.append(("specification" if w == "fs" else "model", l, e, g))
+    # str.lower on latin-1 text stays latin-1 and keeps the length (what Lib.PyBytes.lower_latin1 assumes)
+    for i in range(256):
+        lo = chr(i).lower()
+        if len(lo) != 1 or ord(lo) > 255:
+            bad.append(("cpython", "lower %02x" % i, "one latin-1 code point", repr(lo)))
+    return len(q), bad
+
+
+# =============================================================================
+# C15 x listeners (appended): the configuration the server CONSULTS vs. the configuration that was GIVEN,
+# crossed with every listener kind.  The trust decision of C15 is "peer != trusted_proxy" where
+# trusted_proxy is what the operator configured; here the server is built the way a deployment builds it
+# (create_server(app, **kw) -> real Adjustments -> Tcp/Unix/MultiSocket server -> wrapper) and the peer
+# address is the one the server class reports (handle_accept -> fix_addr -> channel addr).
+# Expectations are computed from the GIVEN keyword arguments alone (given_proxy_cfg), never from adj.
+# =============================================================================
+
+LSN_XF4 = frozenset(["x-forwarded-for", "x-forwarded-host", "x-forwarded-proto", "x-forwarded-port"])
+LSN_UNIX_PATH = "/verif/_work/c15-listener-never-created.sock"     # never bound: the listening socket is a fake
+
+# the proxy-related keyword arguments a deployment may give
+LSN_PROXY_KW = [
+    {},
+    {"clear_untrusted_proxy_headers": False},
+    {"trusted_proxy": "", "clear_untrusted_proxy_headers": True},
+    {"trusted_proxy": "10.0.0.5", "trusted_proxy_headers": set(LSN_XF4), "clear_untrusted_proxy_headers": True},
+    {"trusted_proxy": "10.0.0.5", "trusted_proxy_headers": {"forwarded"}, "clear_untrusted_proxy_headers": False},
+    {"trusted_proxy": "10.0.0.5"},                                          # implicit x-forwarded-proto
+    {"trusted_proxy": "2001:db8::5", "trusted_proxy_headers": set(LSN_XF4), "trusted_proxy_count": 2,
+     "clear_untrusted_proxy_headers": True},
+    {"trusted_proxy": "localhost", "trusted_proxy_headers": set(LSN_XF4), "clear_untrusted_proxy_headers": True},
+    {"trusted_proxy": "localhost", "trusted_proxy_headers": "Forwarded", "clear_untrusted_proxy_headers": "false"},
+    {"trusted_proxy": "proxy.example", "trusted_proxy_headers": {"forwarded"}, "clear_untrusted_proxy_headers": True},
+    {"trusted_proxy": "127.0.0.1", "trusted_proxy_headers": "X-Forwarded-For x-forwarded-proto", "clear_untrusted_proxy_headers": False},
+    {"trusted_proxy": "198.51.100.7", "trusted_proxy_headers": set(LSN_XF4), "clear_untrusted_proxy_headers": True},
+]
+# refused by the proxy settings alone
+LSN_PROXY_KW_BAD = [
+    {"trusted_proxy_count": 2},
+    {"trusted_proxy_headers": {"forwarded"}},
+    {"trusted_proxy": "10.0.0.5", "trusted_proxy_count": 0},
+    {"trusted_proxy": "10.0.0.5", "trusted_proxy_headers": {"forwarded", "x-forwarded-for"}},
+    {"trusted_proxy": "10.0.0.5", "trusted_proxy_headers": {"x-real-ip"}},
+]
+
+
+def _asbool(v):
+    if v is None:
+        return False
+    if isinstance(v, bool):
+        return v
+    return str(v).strip().lower() in ("t", "true", "y", "yes", "on", "1")
+
+
+def given_proxy_cfg(kw):
+    """The four proxy settings as documented (docs/arguments.rst), from the GIVEN keyword arguments alone.
+    -> ('refused', why) | ('ok', Cfg)"""
+    tp = kw.get("trusted_proxy")
+    tp = str(tp) if tp else None
+    cnt = kw.get("trusted_proxy_count")
+    if cnt is not None:
+        cnt = int(cnt)
+        if tp is None:
+            return ("refused", "trusted_proxy_count without trusted_proxy")
+    else:
+        cnt = 1
+    if cnt < 1:
+        return ("refused", "trusted_proxy_count < 1")
+    h = kw.get("trusted_proxy_headers")
+    if h is None:
+        names = set()
+    elif isinstance(h, str):
+        names = set(h.split())
+    else:
+        names = set(h)
+    names = {n.lower() for n in names}
+    if names and tp is None:
+        return ("refused", "trusted_proxy_headers without trusted_proxy")
+    if names - set(KIND_KEY):
+        return ("refused", "unknown proxy header")
+    if "forwarded" in names and len(names) > 1:
+        return ("refused", "Forwarded and X-Forwarded-* are exclusive")
+    if not names and tp is not None:
+        names = {"x-forwarded-proto"}
+    clear = _asbool(kw["clear_untrusted_proxy_headers"]) if "clear_untrusted_proxy_headers" in kw else True
+    return ("ok", Cfg(tp, cnt, frozenset(names), clear))
+
+
+class _FakeListenSock(socket.socket):
+    """a listening socket that is never opened (family / sockname given by the subclass)"""
+    type = socket.SOCK_STREAM
+    proto = 0
+    _fds = [700000]
+
+    def __init__(self, sockname=None):
+        _FakeListenSock._fds[0] += 1
+        self._fd = _FakeListenSock._fds[0]
+        if sockname is not None:
+            self._name = sockname
+
+    def bind(self, addr):
+        pass
+
+    def setblocking(self, x):
+        pass
+
+    def fileno(self):
+        return self._fd
+
+    def getpeername(self):
+        raise OSError(107, "not connected")
+
+    def getsockname(self):
+        return self._name
+
+    def setsockopt(self, *arg):
+        pass
+
+    def getsockopt(self, *arg):
+        return 1
+
+    def listen(self, num):
+        pass
+
+    def close(self):
+        pass
+
+
+class _FakeInet(_FakeListenSock):
+    family = socket.AF_INET
+    _name = ("127.0.0.1", 8080)
+
+
+class _FakeInet6(_FakeListenSock):
+    family = socket.AF_INET6
+    _name = ("::1", 8086, 0, 0)
+
+
+class _FakeUnix(_FakeListenSock):
+    family = socket.AF_UNIX
+    _name = LSN_UNIX_PATH
+
+
+class _FakeDgram(_FakeListenSock):
+    family = socket.AF_INET
+    type = socket.SOCK_DGRAM
+    _name = ("127.0.0.1", 8080)
+
+
+_SOCK_KINDS = {"inet": _FakeInet, "inet6": _FakeInet6, "unix": _FakeUnix, "dgram": _FakeDgram}
+
+# listener-related keyword arguments: (tag, kw with sockets given as kind names, family of the shim socket or None)
+LSN_LISTENERS = [
+    ("default", {}, "inet"),
+    ("host+port v4", {"host": "127.0.0.1", "port": 0}, "inet"),
+    ("host+port v6", {"host": "::1", "port": "8086"}, "inet6"),
+    ("host only", {"host": "127.0.0.1"}, "inet"),
+    ("port only", {"port": 8089}, "inet"),
+    ("listen v4", {"listen": "127.0.0.1:8080"}, "inet"),
+    ("listen v6", {"listen": "[::1]:8086"}, "inet6"),
+    ("listen v4+v6", {"listen": "127.0.0.1:8080 [::1]:8086"}, "inet"),
+    ("listen *", {"listen": "*:8080", "ipv6": False}, "inet"),
+    ("ipv4 only", {"host": "127.0.0.1", "port": 8080, "ipv4": True, "ipv6": False}, "inet"),
+    ("ipv6 only", {"host": "::1", "port": 8086, "ipv4": "false", "ipv6": "true"}, "inet6"),
+    ("unix_socket", {"unix_socket": LSN_UNIX_PATH}, "unix"),
+    ("unix_socket+perms", {"unix_socket": LSN_UNIX_PATH, "unix_socket_perms": "660"}, "unix"),
+    ("sockets inet", {"sockets": ["inet"]}, None),
+    ("sockets inet6", {"sockets": ["inet6"]}, None),
+    ("sockets unix", {"sockets": ["unix"]}, None),
+    ("sockets inet+inet6", {"sockets": ["inet", "inet6"]}, None),
+    ("sockets unix+unix", {"sockets": ["unix", "unix"]}, None),
+]
+# refused by the listener options alone
+LSN_LISTENERS_BAD = [
+    ("unix_socket+host", {"unix_socket": LSN_UNIX_PATH, "host": "127.0.0.1"}, None),
+    ("unix_socket+listen", {"unix_socket": LSN_UNIX_PATH, "listen": "127.0.0.1:8080"}, None),
+    ("sockets+listen", {"sockets": ["inet"], "listen": "127.0.0.1:8080"}, None),
+    ("sockets+unix_socket", {"sockets": ["unix"], "unix_socket": LSN_UNIX_PATH}, None),
+    ("sockets inet+unix", {"sockets": ["inet", "unix"]}, None),
+    ("sockets dgram", {"sockets": ["dgram"]}, None),
+    ("no family", {"ipv4": False, "ipv6": False}, None),
+]
+
+# what accept() returns for a connection, per address family of the listening socket
+LSN_RAW_PEERS = {
+    socket.AF_INET: [("10.0.0.5", 40000), ("198.51.100.7", 5555), ("127.0.0.1", 1), ("10.0.0.50", 2)],
+    socket.AF_INET6: [("2001:db8::5", 40000, 0, 0), ("::1", 5, 0, 0), ("2001:db8::50", 6, 0, 0)],
+    socket.AF_UNIX: ["", b""],
+}
+
+
+def lsn_real_kw(kw):
+    """the keyword arguments with the socket kind names replaced by (new) fake sockets"""
+    out = {}
+    for k, v in kw.items():
+        if k == "sockets":
+            out[k] = [_SOCK_KINDS[x]() for x in v]
+        elif isinstance(v, (set, frozenset)):
+            out[k] = set(v)
+        else:
+            out[k] = v
+    return out
+
+
+def lsn_kw_json(kw):
+    return {k: (sorted(v) if isinstance(v, (set, frozenset)) else v) for k, v in kw.items()}
+
+
+def lsn_kw_from_json(d):
+    return {k: (set(v) if k == "trusted_proxy_headers" and isinstance(v, list) else v) for k, v in d.items()}
+
+
+def lsn_adjustments(kw):
+    """real Adjustments(**kw) -> ('refused', msg) | ('ok', adj)"""
+    from waitress.adjustments import Adjustments
+    with warnings.catch_warnings():
+        warnings.simplefilter("ignore")
+        try:
+            return ("ok", Adjustments(**lsn_real_kw(kw)))
+        except ValueError as e:
+            return ("refused", str(e))
+
+
+def lsn_config_eval(proxy_kw, listener_kw, adj_result=None):
+    """(a): the four proxy settings of the real configuration object are the given ones, whatever the
+    listener options are; the combination is refused exactly when one of the two parts is.
+    -> list of failure strings"""
+    kw = dict(proxy_kw)
+    kw.update(listener_kw)
+    want = given_proxy_cfg(proxy_kw)
+    lonly = lsn_adjustments(listener_kw)
+    got = adj_result or lsn_adjustments(kw)
+    fails = []
+    exp_refused = want[0] == "refused" or lonly[0] == "refused"
+    if got[0] == "refused":
+        if not exp_refused:
+            fails.append("Adjustments refuses the combination (%s) although the proxy settings and the listener options are each accepted alone" % got[1][:80])
+        return fails
+    if exp_refused:
+        fails.append("Adjustments accepts the combination although %s" % ("the proxy settings alone are refused (%s)" % want[1] if want[0] == "refused" else "the listener options alone are refused"))
+        return fails
+    adj, c = got[1], want[1]
+    if adj.trusted_proxy != c.tp:
+        fails.append("adj.trusted_proxy is %r, configured %r" % (adj.trusted_proxy, c.tp))
+    if adj.trusted_proxy_count != c.count:
+        fails.append("adj.trusted_proxy_count is %r, configured %r" % (adj.trusted_proxy_count, c.count))
+    if set(adj.trusted_proxy_headers or ()) != set(c.tph):
+        fails.append("adj.trusted_proxy_headers is %r, configured %r" % (sorted(adj.trusted_proxy_headers or ()), sorted(c.tph)))
+    if adj.clear_untrusted_proxy_headers is not c.clear:
+        fails.append("adj.clear_untrusted_proxy_headers is %r, configured %r" % (adj.clear_untrusted_proxy_headers, c.clear))
+    return fails
+
+
+class _FakeConn:
+    def setsockopt(self, *a):
+        pass
+
+    def close(self):
+        pass
+
+
+class ListenerDeployment:
+    """create_server(app, **kw) as a deployment calls it (fake listening sockets); .servers are the
+    Tcp/Unix server objects it registered; .cfg is the GIVEN proxy configuration."""
+
+    def __init__(self, proxy_kw, listener_kw, shim):
+        import logging
+        from waitress.server import BaseWSGIServer, create_server
+
+        lg = logging.getLogger("waitress")
+        if not any(isinstance(h, logging.NullHandler) for h in lg.handlers):
+            lg.addHandler(logging.NullHandler())
+        lg.propagate = False
+        self.proxy_kw, self.listener_kw = proxy_kw, listener_kw
+        st = given_proxy_cfg(proxy_kw)
+        self.cfg = st[1] if st[0] == "ok" else None
+        self.seen = {}
+
+        def app(environ, start_response):
+            self.seen["env"] = dict(environ)
+            return [b""]
+
+        self.app = app
+        kw = dict(proxy_kw)
+        kw.update(listener_kw)
+        self.map = {}
+        with warnings.catch_warnings():
+            warnings.simplefilter("ignore")
+            self.top = create_server(app, map=self.map, _start=False,
+                                     _sock=(_SOCK_KINDS[shim]() if shim else None), _dispatcher=_DummyDisp(), **lsn_real_kw(kw))
+        self.servers = [v for v in self.map.values() if isinstance(v, BaseWSGIServer)]
+        if isinstance(self.top, BaseWSGIServer) and self.top not in self.servers:
+            self.servers.append(self.top)
+        for s in self.servers:
+            s.logger = NullLogger()
+        self.server = None
+
+    def select(self, server):
+        self.server = server
+        return self
+
+    ctx_words = E2EServer.ctx_words
+
+    def reported_peer(self, server, raw):
+        """the address the channel of a connection accepted from `raw` is given: the real handle_accept
+        (accept -> set_socket_options -> fix_addr -> channel_class(server, conn, addr, adj, map))"""
+        got = []
+        server.accept = lambda: (_FakeConn(), raw)
+        server.channel_class = lambda srv, conn, addr, adj, map=None: got.append(addr)
+        try:
+            server.handle_accept()
+        finally:
+            del server.accept
+            del server.channel_class
+        return got[0] if got else None
+
+    def close(self):
+        for s in self.servers:
+            try:
+                s.close()
+            except Exception:
+                pass
+
+
+def lsn_hostile_requests(rng, n):
+    """requests carrying every proxy header an operator may have marked as trusted"""
+    out = []
+    H = b"GET /where HTTP/1.1\r\nHost: real.example:8080\r\n"
+    fixed = [
+        [(b"X-Forwarded-For", b" 203.0.113.66"), (b"X-Forwarded-Host", b" evil.example:4443"), (b"X-Forwarded-Proto", b" https"),
+         (b"X-Forwarded-Port", b" 4443"), (b"X-Forwarded-By", b" 203.0.113.1")],
+        [(b"Forwarded", b' for="203.0.113.66:99";host=evil.example;proto=https;by=203.0.113.1')],
+        [(b"x-forwarded-proto", b"https")],
+    ]
+    for hl in fixed:
+        lines = [(b"Host", b" real.example:8080")] + hl
+        raw = H + b"".join(n_ + b":" + v + b"\r\n" for n_, v in hl) + b"\r\n"
+        out.append(({"with": [raw], "without": [H + b"\r\n"], "without_all": [H + b"\r\n"]}, lines, b""))
+    for _ in range(n):
+        c = gen_e2e_case(rng)
+        out.append(({"with": [c["with"]], "without": [c["without"]], "without_all": [c["without_all"]]}, c["lines"], c["pad"]))
+    return out
+
+
+def lsn_raw_json(raw):
+    if isinstance(raw, bytes):
+        return {"bytes_hex": raw.hex()}
+    if isinstance(raw, tuple):
+        return list(raw)
+    return raw
+
+
+def lsn_raw_from_json(j):
+    if isinstance(j, dict):
+        return bytes.fromhex(j["bytes_hex"])
+    if isinstance(j, list):
+        return tuple(j)
+    return j
+
+
+def lsn_expected_reported(server, raw):
+    """what a channel must be told about its peer: the accepted address for TCP listeners,
+    ("localhost", None) for a UNIX-domain listener (the peer has no address)"""
+    if server.family == socket.AF_UNIX:
+        return ("localhost", None)
+    return raw
